@@ -16,13 +16,13 @@ func init() {
 			{Patterns: []string{"./lnwire"}},
 			{Dir: "tlv", Patterns: []string{"."}},
 		},
-		Explanation: "Decides, for every type implementing lnwire.Message and for the onion failure messages, that Encode and Decode touch the same struct fields, in the same order for the positional part, with writer widths that match the width the reader derives from the field type; that the message-type and failure-code registries are total and round-trip (constant -> constructor -> MsgType()/Code()); that WriteMessage refuses payloads above the 65535-byte bound; that every input-derived allocation or copy bound in the decoders is bounded by a 16-bit/8-bit length, by a constant comparison or by the remaining message size; that the TLV stream decoder rejects non-increasing types and non-minimal BigSize encodings and that every primitive decoder checks the record length; and that peer-facing decoding uses the P2P-bounded TLV stream variants.",
+		Explanation: "Decides, for every type implementing lnwire.Message and for the onion failure messages, that Encode and Decode touch the same struct fields, in the same order for the positional part, with writer widths that match the width the reader derives from the field type; that the message-type and failure-code registries are total and round-trip (constant -> constructor -> MsgType()/Code()); that WriteMessage refuses payloads above the 65535-byte bound; that every input-derived allocation or copy bound in the decoders is bounded by a 16-bit/8-bit length, by a constant comparison or by the remaining message size; that the TLV stream decoder rejects non-increasing types and non-minimal BigSize encodings and that every primitive decoder checks the record length; and that peer-facing decoding uses the P2P-bounded TLV stream variants; that every TLV record decoder of lnwire takes exactly the record length from the stream on every path that can report success (byte accounting over fixed reads, reads sized from the length, counted loops with a divisibility check, delegation, or a reader limited to the length and shown to be used up); that no value longer than one byte is read with a bare Read; that a length prefix of 8 bits is dominated by a bound it can hold (16 bits: a bound, or the measured data written in full under the frame bound); that ReadElement and every TLV decoder write their destination on every success path; that an Encode which can finish without a field it handles elsewhere decides so on a field it has already written, Decode and DataToSign deciding by the same condition; and that the BigSize and CompactSize integer primitives are never mixed across an Encode/Decode pair.",
 		NotDecided: []string{
 			"total absence of panics on arbitrary bytes", "that decode-then-encode is a byte-identical fixpoint for every input",
 			"preservation of unknown TLV records through re-encoding beyond the choice of the re-packing helper (the helper's arithmetic on record maps is not decided)", "value equality after a round trip",
 		},
 		Assumptions: append([]string{"the tlv package analysed is /repo/tlv (its own module); the root module compiles against the tagged copy of it in the module cache"}, commonAssumptions...),
-		Engines:     "CODEC (trace agreement over all message types), REG, GUARD, BOUND, WHO",
+		Engines:     "CODEC (trace agreement over all message types), REG, GUARD, BOUND (incl. byte accounting of record decoders), WHO, PATH, MIRROR",
 		TagMatrix:   [][]string{{"GOARCH=386"}},
 		Run:         runC10,
 	})
